@@ -111,6 +111,16 @@ def gen_cases(rng, tier):
             u = rng.choice(inv)
             cases.append({'dm': rng.choice(W.MODES), 'pre': True, 'script': [], 'hist': [],
                           'q': {'k': 'op', 'o': ['div', ['n', n], ['q', amt, u]]}})
+    # ... and divided by / multiplied with a UNIT: numbers without a finite decimal
+    # expansion included (seeded C02-d: Fraction(1, 3) / SECOND)
+    for n in NUMS + [['frac', '1/3'], ['frac', '-22/7'], ['frac', '5/6']]:
+        if F(n[1] if n[0] != 'float' else 1) == 0:
+            continue
+        for o in ('div', 'mul'):
+            u = rng.choice(inv)
+            x, y = ['n', n], ['u', u]
+            cases.append({'dm': rng.choice(W.MODES), 'pre': True, 'script': [], 'hist': [],
+                          'q': {'k': 'op', 'o': [o, x, y] if o == 'div' else [o, y, x]}})
     for i in range(160 if tier == 'quick' else 1800):
         tag = ''.join(rng.choice('abcdefghk') for _ in range(3))
         script, w = RW.gen_world(rng, tag)
@@ -145,7 +155,48 @@ def gen_cases(rng, tier):
                 hist = [['div' if o[0] == 'mul' else 'mul', ['u', o[1][-1]], ['u', o[2][-1]]]]
             cases.append({'dm': rng.choice(W.MODES), 'pre': False, 'script': script, 'hist': hist,
                           'q': {'k': 'op', 'o': o}})
+        # an operation that is undefined, tried, then the missing type is declared and
+        # the operation tried again (seeded C02-e: "no unit for this term" remembered)
+        n_late = 0
+        for _ in range(12):
+            if n_late >= 2:
+                break
+            if rng.random() < 0.25:
+                o = ['pow', _opd(rng, rng.choice(us), rng.choice('qu')), rng.choice([2, 3, -1])]
+                if o[2] < 0 and o[1][0] == 'q':
+                    o[1][1] = ['dec', '1000/1']
+            else:
+                o = [rng.choice(['mul', 'div']), _opd(rng, rng.choice(us), rng.choice('qu')),
+                     _opd(rng, rng.choice(us), rng.choice('qu'))]
+            if expected(w, 'MHEVEN', o)[0] != 'undef':
+                continue
+            # only types with reference units throughout (units of a type without one do
+            # not cancel against each other: definedness is then a matter of declared units)
+            if not all(w.classes[b]['ref'] for x in o[1:] if isinstance(x, list) and x[0] != 'n'
+                       for b in w.classes[w.units[x[-1]]['cls']]['dims']):
+                continue
+            dims = _result_dims(w, o)
+            if dims and RW.vkey(dims) not in w.by_dims and all(w.classes[c]['ref'] for c in dims):
+                late = [{'d': 'cls', 'name': f"L{tag}{n_late}",
+                         'def': [[c, e] for c, e in sorted(dims.items())],
+                         'ref': None, 'quantum': None}]
+                cases.append({'dm': rng.choice(W.MODES), 'pre': False, 'script': script,
+                              'hist': [o], 'late': late, 'q': {'k': 'op', 'o': o}})
+                n_late += 1
     return cases
+
+
+def _result_dims(w, o):
+    """dimension (over base classes) of the result of a unit-level op, or None"""
+    if o[0] not in ('mul', 'div', 'pow'):
+        return None
+    def dims(opd):
+        if opd[0] == 'n':
+            return {}
+        return w.classes[w.units[opd[-1]]['cls']]['dims']
+    if o[0] == 'pow':
+        return RW.vpow(dims(o[1]), o[2])
+    return RW.vmul(dims(o[1]), RW.vpow(dims(o[2]), 1 if o[0] == 'mul' else -1))
 
 
 # ------------------------------------------------------------------ oracle
@@ -249,6 +300,11 @@ def expected(w, dm, m):
 
 
 def oracle(case, r):
+    if case.get('late'):
+        for s in r.get('late', []):
+            if s is not None:
+                return f"a declaration after the first attempt was rejected: {s}"
+        case = dict(case, script=case['script'] + case['late'], late=[])
     w, _ = RW.replay(case)
     if case.get('pre'):
         msg = _check_si(w)
